@@ -508,13 +508,14 @@ class Manager:
 
         def _on_event(self, event, *args, **kwargs):
             if not state.run and (event_object is None or event is event_object):
-                self.removeHandler(_on_event_handler, event_name)
+                for event_handler in event_handlers:
+                    self.removeHandler(event_handler, event_name)
                 event.alert_done = True
                 state.run = True
                 state.event = event
 
         def _on_done(self, event, *args, **kwargs):
-            if state.event == event.parent:
+            if state.event == event.parent and not state.flag:
                 state.flag = True
                 self.registerTask((state.task_event, state.task, state.parent))
                 if state.timeout >= 0:
@@ -530,24 +531,39 @@ class Manager:
                     ),
                 )
                 if not state.run:
-                    self.removeHandler(_on_event_handler, event_name)
-                self.removeHandler(_on_done_handler, '%s_done' % event_name)
-                self.removeHandler(_on_tick_handler, 'generate_events')
+                    for event_handler in event_handlers:
+                        self.removeHandler(event_handler, event_name)
+                for done_handler in done_handlers:
+                    self.removeHandler(done_handler, '%s_done' % event_name)
+                self.removeHandler(state.tick_handler, 'generate_events')
             elif state.timeout > 0:
                 state.timeout -= 1
+
+        def on_channel(f):
+            # handler() marks the function object it decorates, so
+            # each channel needs a function object of its own
+            def g(self, event, *args, **kwargs):
+                return f(self, event, *args, **kwargs)
+
+            g.__name__ = f.__name__
+            return g
 
         if not channels:
             channels = (None,)
 
+        event_handlers = []
+        done_handlers = []
         for channel in channels:
-            _on_event_handler = self.addHandler(handler(event_name, channel=channel)(_on_event))
-            _on_done_handler = self.addHandler(handler('%s_done' % event_name, channel=channel)(_on_done))
-            if state.timeout >= 0:
-                _on_tick_handler = state.tick_handler = self.addHandler(handler('generate_events', channel=channel)(_on_tick))
+            event_handlers.append(self.addHandler(handler(event_name, channel=channel)(on_channel(_on_event))))
+            done_handlers.append(self.addHandler(handler('%s_done' % event_name, channel=channel)(on_channel(_on_done))))
+        if state.timeout >= 0:
+            # generate_events is fired on all channels: one handler counts
+            state.tick_handler = self.addHandler(handler('generate_events', channel=channels[-1])(_on_tick))
 
         yield state
 
-        self.removeHandler(_on_done_handler, '%s_done' % event_name)
+        for done_handler in done_handlers:
+            self.removeHandler(done_handler, '%s_done' % event_name)
 
         if state.event is not None:
             yield CallValue(state.event.value)
